@@ -103,7 +103,7 @@ using Own = std::map<int, std::optional<MCoin>>; //!< nullopt = SPENT marker
 /** Constructing a CCoinsViewDB and CCoinsViewCaches (256 KiB pool chunk each) per case is slow under ASan (mmap per object), which matters for the
  *  exhaustive stage: the objects are created once per process and per DB batch size, and brought back to the empty state at the start of every case
  *  (the emptiness is verified, see Sim::Sim). */
-constexpr int DB_REUSE = 1;
+constexpr int DB_REUSE = 8; // chosen by reasoning (bounded version chains, amortised DB construction); timing comparisons were drowned by machine load
 struct Pool {
     int uses{0};
     std::unique_ptr<CCoinsViewDB> db;
@@ -483,8 +483,8 @@ VERIF_TARGET(c15_cachesim, init, 24, 4096,
 }
 
 // ------------------------------------------------------------------------------------------------
-// Exhaustive small scope: ALL sequences of SS_LEN operations from a 19-letter alphabet over 2 outpoints and 2 cache layers
-// (L1 over L0 over DB), started from each of 4 prefixes (states reachable by a short history). Checks after every op, so every
+// Exhaustive small scope: ALL sequences of N operations from a 19-letter alphabet over 2 outpoints and 2 cache layers
+// (L1 over L0 over DB) from the empty state, and all sequences of N-1 operations from 3 deeper start states. Checks after every op, so every
 // shorter sequence is covered as a prefix.
 namespace {
 
@@ -519,20 +519,23 @@ void SsApply(Sim& sim, int letter)
     sim.clock++; // spends/reads also advance the clock so that coin variants and moveout usage vary with the position
 }
 
-void SmallScope(verif::Src& s, verif::Stats& st, int len)
+void SmallScope(verif::Src& s, verif::Stats& st, int maxlen)
 {
-    uint64_t per_prefix = 1;
-    for (int i = 0; i < len; ++i) per_prefix *= SS_ALPHA;
-    const uint64_t total = per_prefix * SS_PREFIXES;
+    // start state 0 (everything empty): all sequences of `maxlen` letters; start states 1..3 (already `>= 3` ops deep): all sequences of maxlen-1 letters
+    uint64_t full = 1;
+    for (int i = 0; i < maxlen; ++i) full *= SS_ALPHA;
+    const uint64_t shorter = full / SS_ALPHA;
+    const uint64_t total = full + (SS_PREFIXES - 1) * shorter;
     verif::set_enum_total(total);
     int64_t idx = verif::enum_index();
     if (idx < 0) idx = int64_t(s.range<uint64_t>(0, total - 1));
     if (uint64_t(idx) >= total) return;
+    int prefix = 0, len = maxlen;
+    uint64_t rest = uint64_t(idx);
+    if (rest >= full) { rest -= full; prefix = 1 + int(rest / shorter); rest %= shorter; len = maxlen - 1; }
     try {
         Sim sim(st, 2, (idx & 1) ? 32 : (16 << 20)); // odd indices: 32-byte DB batches (every coin its own partial batch)
         sim.Push();
-        int prefix = int(uint64_t(idx) / per_prefix);
-        uint64_t rest = uint64_t(idx) % per_prefix;
         // prefixes: 0 empty; 1 A unspent in DB only; 2 A in DB and cached clean in both layers; 3 A in DB, spent (dirty) in L0
         static const std::vector<std::vector<int>> PRE{{}, {0, 14, 16}, {0, 14, 16, 3}, {0, 14, 16, 2, 14}};
         for (int l : PRE[prefix]) { SsApply(sim, l); sim.CheckAll(); }
@@ -560,15 +563,15 @@ void SmallScope(verif::Src& s, verif::Stats& st, int len)
 } // namespace
 
 VERIF_TARGET(c15_smallscope, init, 8, 8,
-             "EXHAUSTIVE: all 19^4 sequences over the alphabet {add, add(overwrite), spend, get, uncache, get@L0, uncache@L0} x {A,B} + {flush,sync} x {L1,L0} + reset, "
-             "2 cache layers over an in-memory DB, from 4 start states (empty / A in DB / A in DB and cached / A spent-dirty in L0); model + accounting checked after "
+             "EXHAUSTIVE: all 19^4 sequences (from the empty state; 19^3 from each of 3 deeper start states) over the alphabet {add, add(overwrite), spend, get, uncache, get@L0, uncache@L0} x {A,B} + {flush,sync} x {L1,L0} + reset, "
+             "2 cache layers over an in-memory DB; start states: empty / A in DB / A in DB and cached / A spent-dirty in L0; model + accounting checked after "
              "every op. non-trivial = an outpoint was written, carried to a lower layer by flush/sync, and written again")
 {
     SmallScope(s, st, 4);
 }
 
 VERIF_TARGET(c15_smallscope5, init, 8, 8,
-             "EXHAUSTIVE (thorough tier): as c15_smallscope with all 19^5 sequences per start state")
+             "EXHAUSTIVE (thorough tier): as c15_smallscope with all 19^5 sequences from the empty state and 19^4 from each deeper start state")
 {
     SmallScope(s, st, 5);
 }
